@@ -15,7 +15,10 @@ use crate::sim::{run_sim, vnow, Handle, RunOutput, SchedKind};
 use crate::simnet::{NetKnobs, SimNet};
 use futures::StreamExt;
 use litep2p::{
+    codec::ProtocolCodec,
     protocol::notification::{ConfigBuilder as NotifBuilder, Direction, NotificationEvent, NotificationHandle, ValidationResult},
+    protocol::{Direction as SubDirection, TransportEvent, TransportService, UserProtocol},
+    substream::Substream,
     Litep2p, Litep2pEvent, PeerId, ProtocolName,
 };
 use serde_json::{json, Value};
@@ -433,6 +436,104 @@ impl NotifProp {
     }
 }
 
+/// A live peer (ghost n+1) that registers the notification protocol's name as a raw user protocol
+/// and plays the two-substream handshake badly.
+struct RogueNotif {
+    behaviour: String,
+    max_size: usize,
+    handle: Handle,
+}
+
+fn uvarint(mut n: u64) -> Vec<u8> {
+    let mut v = Vec::new();
+    loop {
+        let b = (n & 0x7f) as u8;
+        n >>= 7;
+        if n == 0 {
+            v.push(b);
+            break;
+        }
+        v.push(b | 0x80);
+    }
+    v
+}
+
+#[async_trait::async_trait]
+impl UserProtocol for RogueNotif {
+    fn protocol(&self) -> ProtocolName {
+        ProtocolName::from("/vsim/notif/1")
+    }
+    fn codec(&self) -> ProtocolCodec {
+        ProtocolCodec::Unspecified
+    }
+    async fn run(self: Box<Self>, mut service: TransportService) -> litep2p::Result<()> {
+        use tokio::io::{AsyncReadExt, AsyncWriteExt};
+        let mut held: Vec<Substream> = Vec::new();
+        let hs = [uvarint(2), vec![0xee, 0xbb]].concat();
+        let full = self.behaviour.starts_with("full");
+        while let Some(ev) = futures::StreamExt::next(&mut service).await {
+            match ev {
+                TransportEvent::ConnectionEstablished { peer, .. } if self.behaviour == "initiate_silent" => {
+                    let _ = service.open_substream(peer);
+                }
+                TransportEvent::SubstreamOpened { mut substream, peer, direction, .. } => {
+                    self.handle.probe(&format!("rogue-notif:{}", self.behaviour));
+                    let mut buf = [0u8; 64];
+                    match direction {
+                        SubDirection::Inbound => {
+                            // the honest side sent its handshake first
+                            let _ = tokio::time::timeout(Duration::from_secs(2), substream.read(&mut buf)).await;
+                            match self.behaviour.as_str() {
+                                "no_reply" => {}
+                                "reply_close" => {
+                                    let _ = substream.write_all(&hs).await;
+                                    let _ = substream.flush().await;
+                                    let _ = substream.shutdown().await;
+                                    continue;
+                                }
+                                _ => {
+                                    let _ = substream.write_all(&hs).await;
+                                    let _ = substream.flush().await;
+                                    if full {
+                                        let _ = service.open_substream(peer);
+                                    }
+                                }
+                            }
+                        }
+                        SubDirection::Outbound(_) => {
+                            let _ = substream.write_all(&hs).await;
+                            let _ = substream.flush().await;
+                            if self.behaviour != "initiate_silent" {
+                                let _ = tokio::time::timeout(Duration::from_secs(12), substream.read(&mut buf)).await;
+                                let bytes: Option<Vec<u8>> = match self.behaviour.as_str() {
+                                    // a frame beyond the configured maximum, delivered completely
+                                    "full_oversize" => Some([uvarint(self.max_size as u64 + 1), vec![5u8; self.max_size + 1]].concat()),
+                                    "full_badvarint" => Some([vec![0x80u8; 11], vec![1, 2, 3]].concat()),
+                                    "full_close" => {
+                                        let _ = substream.shutdown().await;
+                                        continue;
+                                    }
+                                    _ => None,
+                                };
+                                if let Some(b) = bytes {
+                                    let _ = substream.write_all(&b).await;
+                                    let _ = substream.flush().await;
+                                }
+                            }
+                        }
+                    }
+                    held.push(substream);
+                    if held.len() > 64 {
+                        held.remove(0);
+                    }
+                }
+                _ => {}
+            }
+        }
+        Ok(())
+    }
+}
+
 const SETTLE1_MS: u64 = 50_000;
 const SETTLE2_MS: u64 = 30_000;
 const SETTLE3_MS: u64 = 50_000;
@@ -505,10 +606,26 @@ impl Prop for NotifProp {
                 allowed = allowed.saturating_sub(fit * size);
             }
         }
+        // ghost n+1 is, in a third of the runs, a live peer that plays the notification handshake
+        // badly; then a quarter of the opens / closes / sends go to it
+        let rogue = {
+            let mut r = Rng::fork(seed, "notif-rogue");
+            if r.chance(1, 3) {
+                for o in ops.iter_mut() {
+                    if matches!(o["op"].as_str(), Some("open") | Some("close") | Some("send") | Some("connect")) && r.chance(1, 4) {
+                        o["to"] = json!(n as u64 + 1);
+                    }
+                }
+                json!(*r.pick(&["no_reply", "reply_only", "reply_close", "full_silent", "full_oversize", "full_badvarint", "full_close", "initiate_silent"]))
+            } else {
+                Value::Null
+            }
+        };
         json!({
             "property": self.id,
             "seed": seed,
             "nodes": n,
+            "rogue": rogue,
             "sched": sched,
             "net": net,
             "node_knobs": gen_node_knobs(&mut rng),
@@ -579,6 +696,20 @@ impl Prop for NotifProp {
                 )));
                 should_dial.push(sd);
                 auto_accept.push(aa);
+            }
+            if let Some(behaviour) = case["rogue"].as_str() {
+                let g = n + 1;
+                node::CURRENT_NODE.with(|c| c.set(g));
+                let cfg = base_config(&handle, seed, g, &knobs).with_user_protocol(Box::new(RogueNotif { behaviour: behaviour.to_string(), max_size, handle: handle.clone() })).build();
+                match Litep2p::new(cfg) {
+                    Ok(mut l) => {
+                        handle.spawn(g, "rogue-event-loop", async move { while l.next_event().await.is_some() {} });
+                    }
+                    Err(e) => {
+                        handle.violation("harness:litep2p-new", format!("rogue: {e:?}"));
+                        return Box::new(|| {});
+                    }
+                }
             }
             node::CURRENT_NODE.with(|c| c.set(0));
             let dead: Arc<Mutex<BTreeMap<usize, bool>>> = Arc::new(Mutex::new(BTreeMap::new()));
